@@ -27,7 +27,7 @@ def instances(tier):
         ns, lm = nfix + nsym, 2
         out.append(Inst(ob="O2", name="dealign_fix%d_sym%d" % (nfix, nsym), harness="c04_dealign.c", defs={"VK_NS": ns, "VK_LMAX": lm, "VK_NFIX": nfix},
                         srcs=["lib/src/msa_op.c", "lib/src/alphabet.c"], models=["models/vin.c", "models/msg.c", "models/msa_stub.c", "models/ctype.c", "models/log_stub.c"],
-                        native_srcs=["lib/src/tldevel.c", "lib/src/msa_alloc.c"], unwind=ns + 3, unwind_pat=MK_MSA_UNWIND, flags=["--object-bits", "11"],
+                        native_srcs=["lib/src/tldevel.c", "lib/src/msa_alloc.c"], unwind=ns + 3, unwind_pat=MK_MSA_UNWIND, flags=["--object-bits", "11", "--max-field-sensitivity-array-size", "256"],   # > 64 records: keep the record table element-wise
                         nb=ns * (2 * lm + 3), timeout=300, mem_gb=4, funcs=["detect_aligned", "dealign_msa"],
                         bound="%d concrete gap-free records followed by %d symbolic ones (lengths 0..%d, gap counts 0..3)" % (nfix, nsym, lm), desc="status classification looks at every record"))
     for nd, ns in ([(1, 1), (2, 1)] if tier == "quick" else [(1, 1), (2, 1), (1, 2), (2, 2)]):
